@@ -450,4 +450,198 @@ example : (runSpec [] [.lit [104, 105]]).getD 0 none = some [104, 105] ∧ IsByt
   · rfl
   · intro x hx; simp at hx; omega
 
+/-! ## 6. Argument objects: every bytes-like kind, used any number of times
+
+The wrapped Go functions take VALUES (`string`, `[]byte`); the wrappers are handed OBJECTS,
+some of which have state (a buffer's read offset, a file's position).  "Returns exactly what
+the Go function returns for every argument" therefore has a second half: taking the Go value
+out of the object must not change the object, or the next use of the same object — a second
+`encode`, the `decode(encode(x)) == x` comparison itself — is a call on a different value. -/
+
+/-- no object of the heap is a stream (a file); strings, byte_slices, buffers (with any read
+    offset), ints, lists … are all allowed -/
+def valueObjs (h : Objs) : Prop := ∀ o ∈ h, o.isStream = false
+
+/-- the unchanged code's converters, on every object that is not a stream, are the pure
+    `project` applied to the object's contents, and hand the object back as it was -/
+theorem convObj_peek (c : Conv) (o : Obj) (hs : o.isStream = false) :
+    convObj .peek c o = (project c o.asVal).map fun g => (g, o) := by
+  cases o with
+  | val v => rfl
+  | buffer b off => cases c <;> simp [convObj, project, Obj.asVal]
+  | file d pos => simp [Obj.isStream] at hs
+
+/-- ASBYTES IS READ-ONLY (and so is every other converter): for every converter, every
+    argument object of every kind other than a stream — string, byte_slice, buffer with any
+    contents and any read offset, any other value — if the conversion succeeds the object is
+    afterwards exactly what it was before. -/
+theorem asBytes_readonly (c : Conv) (o : Obj) (hs : o.isStream = false) (g : GoVal) (o' : Obj)
+    (h : convObj .peek c o = some (g, o')) : o' = o := by
+  rw [convObj_peek c o hs] at h
+  cases hp : project c o.asVal with
+  | none => simp [hp] at h
+  | some g' => simp [hp] at h; exact h.2.symm
+
+/-- what the wrapped function is handed for a buffer is exactly the buffer's unread bytes,
+    whether the parameter is a `string` (`AsString`) or a `[]byte` (`AsBytes`) -/
+theorem buffer_projects_unread (b : Bytes) (off : Nat) :
+    convObj .peek .bytes (.buffer b off) = some (.bytes (b.drop off), .buffer b off) ∧
+    convObj .peek .str (.buffer b off) = some (.str (b.drop off), .buffer b off) := ⟨rfl, rfl⟩
+
+/-- THE MODEL FOLLOWS THE TYPE SWITCH (what ties `convObj` to object/typeconv.go through the
+    regenerated tables, see `asBytesCases_tie`): for every argument object, `AsBytes` refuses
+    it exactly when the switch reaches the default case, hands back the very same object when
+    it reaches a case that only looks, and only a stream reaches the `io.ReadAll` fallback. -/
+theorem asBytes_follows_cases (o : Obj) :
+    match caseOf asBytesCases o with
+    | .reject => convObj .peek .bytes o = none
+    | .look => ∃ g, convObj .peek .bytes o = some (g, o)
+    | .readAll => o.isStream = true := by
+  cases o with
+  | val v => cases v <;> simp [caseOf, asBytesCases, Obj.matchesTy, convObj, project]
+  | buffer b off => simp [caseOf, asBytesCases, Obj.matchesTy, convObj]
+  | file d pos => simp [caseOf, asBytesCases, Obj.matchesTy, Obj.isStream]
+
+/-- the same for `AsString`, which has no stream case at all -/
+theorem asString_follows_cases (o : Obj) :
+    match caseOf asStringCases o with
+    | .reject => convObj .peek .str o = none
+    | .look => ∃ g, convObj .peek .str o = some (g, o)
+    | .readAll => False := by
+  cases o with
+  | val v => cases v <;> simp [caseOf, asStringCases, Obj.matchesTy, convObj, project]
+  | buffer b off => simp [caseOf, asStringCases, Obj.matchesTy, convObj]
+  | file d pos => simp [caseOf, asStringCases, Obj.matchesTy, convObj]
+
+theorem Objs.set_get : ∀ (h : Objs) (r : Nat), h.set r (h.get r) = h
+  | [], _ => rfl
+  | o :: h, 0 => rfl
+  | o :: h, r + 1 => by
+    have := Objs.set_get h r
+    simp only [Objs.get, List.getD_cons_succ, List.set_cons_succ] at this ⊢
+    rw [this]
+
+theorem valueObjs_get (h : Objs) (hv : valueObjs h) (r : Nat) : (h.get r).isStream = false := by
+  unfold Objs.get
+  rw [List.getD_eq_getElem?_getD]
+  cases hr : h[r]? with
+  | none => rfl
+  | some o => exact hv o (List.mem_of_getElem? hr)
+
+/-- all converters of a call: the pure `projectAll` on the contents; the heap is unchanged -/
+theorem convRefs_peek (h : Objs) (hv : valueObjs h) : ∀ (cs : List Conv) (rs : List Nat),
+    convRefs .peek cs rs h = (projectAll cs (rs.map fun r => (h.get r).asVal), h)
+  | [], [] => rfl
+  | [], _ :: _ => rfl
+  | _ :: _, [] => rfl
+  | c :: cs, r :: rs => by
+    simp only [convRefs, List.map_cons, projectAll]
+    rw [convObj_peek c _ (valueObjs_get h hv r)]
+    cases hp : project c (h.get r).asVal with
+    | none => simp
+    | some g =>
+      simp only [Option.map_some, Objs.set_get, convRefs_peek h hv cs rs]
+      cases projectAll cs (rs.map fun r => (h.get r).asVal) <;> rfl
+
+/-- WRAPPERS ON OBJECTS = WRAPPERS ON CONTENTS, ARGUMENTS UNTOUCHED: for every wrapper
+    signature, every Go function, every heap of argument objects without streams and every
+    tuple of references into it (the same object may occur several times): the wrapper
+    returns exactly what the value-level wrapper `wrap` returns on the objects' contents — so
+    `glue_faithful`, `wrap_no_panic`, `C19_partial_no_panic` hold for buffers as they do for
+    strings and byte_slices — and every object is afterwards what it was before. -/
+theorem wrapObjs_peek (sig : Sig) (f : GoFun) (refs : List Nat) (h : Objs) (hv : valueObjs h) :
+    wrapObjs .peek sig f refs h = (wrap sig f (refs.map fun r => (h.get r).asVal), h) := by
+  unfold wrapObjs wrap
+  simp only [List.length_map]
+  split
+  · rfl
+  · rw [convRefs_peek h hv]
+    cases projectAll sig.args (refs.map fun r => (h.get r).asVal) <;> rfl
+
+/-- the heap half of `wrapObjs_peek` on its own: a wrapper call changes none of its arguments -/
+theorem wrapObjs_readonly (sig : Sig) (f : GoFun) (refs : List Nat) (h : Objs) (hv : valueObjs h) :
+    (wrapObjs .peek sig f refs h).2 = h := by rw [wrapObjs_peek sig f refs h hv]
+
+/-- WRAPPER IDEMPOTENT ON ITS ARGUMENTS: calling any wrapper a second time on the same
+    argument objects (in the state the first call left them in) gives the same outcome and
+    the same objects as the first call — for every signature, Go function, heap without
+    streams and reference tuple. -/
+theorem wrapper_idempotent_on_args (sig : Sig) (f : GoFun) (refs : List Nat) (h : Objs) (hv : valueObjs h) :
+    wrapObjs .peek sig f refs (wrapObjs .peek sig f refs h).2 = wrapObjs .peek sig f refs h := by
+  rw [wrapObjs_readonly sig f refs h hv]
+
+/-- IMPL ⊑ SPEC FOR USE SEQUENCES: for every sequence of wrapper calls of any length over the
+    same heap of argument objects (any wrappers, any functions, any reference tuples, objects
+    reused at will), every call returns what it returns on the contents the objects had at the
+    START of the sequence, and at the end every object is what it was at the start. -/
+theorem uses_impl_refines_spec (h : Objs) (hv : valueObjs h) : ∀ us : List Use,
+    runUses .peek h us = specUses h us
+  | [] => rfl
+  | u :: us => by
+    simp only [runUses, wrapObjs_peek u.sig u.f u.refs h hv, uses_impl_refines_spec h hv us, specUses,
+      List.map_cons]
+
+/-- the k-th use of an object sees what the first use saw: in any sequence, two uses with the
+    same wrapper, function and references have equal outcomes, wherever they stand -/
+theorem uses_repeat_equal (h : Objs) (hv : valueObjs h) (us : List Use) (i j : Nat) (u : Use)
+    (hi : us[i]? = some u) (hj : us[j]? = some u) :
+    (runUses .peek h us).1[i]? = (runUses .peek h us).1[j]? := by
+  simp [uses_impl_refines_spec h hv us, specUses, hi, hj]
+
+/-- GLUE FAITHFUL ON OBJECTS: if the contents of the referenced objects are the injections of
+    the Go values `gs` (a buffer whose unread bytes are `b` stands for the Go `[]byte`/`string`
+    `b`), the wrapper returns the injection of `f gs`. -/
+theorem glue_faithful_objs (sig : Sig) (f : GoFun) (gs : List GoVal) (refs : List Nat) (h : Objs)
+    (hv : valueObjs h) (hc : (refs.map fun r => (h.get r).asVal) = gs.map inject)
+    (hf : fitsAll sig.args gs = true) :
+    (wrapObjs .peek sig f refs h).1 = outOf (f (passed sig gs)) := by
+  rw [wrapObjs_peek sig f refs h hv, hc]
+  exact glue_faithful sig f gs hf
+
+/-- ROUND TRIP AGAINST THE LIVE ARGUMENT: for every codec of the registry and every argument
+    object that is not a stream, if `AsBytes` hands the encoder the bytes `b`, then
+    `decode(encode(x))` is `b` AND reading the argument again after the call gives the same `b`
+    from the same object: the comparison `decode(encode(x)) == x` is a comparison with the
+    value that was encoded. -/
+theorem codec_roundtrip_on_object (c : Codec) (o : Obj) (hs : o.isStream = false) (b : Bytes) (o' : Obj)
+    (h : convObj .peek .bytes o = some (.bytes b, o')) (hb : IsBytes b) :
+    c.dec (c.enc b) = some b ∧ convObj .peek .bytes o' = some (.bytes b, o') := by
+  have := asBytes_readonly .bytes o hs _ _ h
+  subst this
+  exact ⟨codec_roundtrip c b hb, h⟩
+
+/-- STREAMS (not a defect; stated so that the model's treatment of `object.File` is explicit):
+    `AsBytes` on a file returns what is left of the stream and leaves the stream at its end —
+    what `io.ReadAll` does to an `*os.File` in Go; a second read returns no bytes.  `AsString`
+    refuses a file. -/
+theorem stream_read_advances (m : BufRead) (d : Bytes) (pos : Nat) :
+    convObj m .bytes (.file d pos) = some (.bytes (d.drop pos), .file d (max pos d.length)) ∧
+    convObj m .bytes (.file d (max pos d.length)) = some (.bytes [], .file d (max pos d.length)) ∧
+    convObj m .str (.file d pos) = none := by
+  refine ⟨rfl, ?_, rfl⟩
+  simp [convObj, unread, Nat.max_def]
+  split <;> simp_all <;> omega
+
+/-- SENSITIVITY (why the buffer case of `AsBytes` is part of the model): if a buffer is read
+    through the `io.Reader` fallback (`drain`) the first use is right and every later one is
+    not — `encode(buf)` twice gives the encoding of "hi" and then of "", and a two-parameter
+    call on the same buffer (`x.replace_all(buf, buf)`) hands the function "hi" and "" —
+    whereas the unchanged code (`peek`) hands over "hi" every time. -/
+theorem drain_breaks_reuse :
+    let h : Objs := [.buffer [104, 105] 0]
+    (convRefs .drain [.bytes] [0] h).1 = some [.bytes [104, 105]] ∧
+    (convRefs .drain [.bytes] [0] (convRefs .drain [.bytes] [0] h).2).1 = some [.bytes []] ∧
+    (convRefs .drain [.bytes, .bytes] [0, 0] h).1 = some [.bytes [104, 105], .bytes []] ∧
+    (convRefs .peek [.bytes] [0] (convRefs .peek [.bytes] [0] h).2).1 = some [.bytes [104, 105]] ∧
+    (convRefs .peek [.bytes, .bytes] [0, 0] h).1 = some [.bytes [104, 105], .bytes [104, 105]] := by
+  decide
+
+/-- non-vacuity: a heap with a string, a byte_slice, a half-read buffer and an int is a heap
+    without streams; the half-read buffer "xhi" (offset 1) shows the contents "hi" -/
+example : valueObjs [.val (.str [104]), .val (.bytes [105]), .buffer [120, 104, 105] 1, .val (.int 3)] := by
+  intro o ho
+  simp at ho
+  rcases ho with rfl | rfl | rfl | rfl <;> rfl
+example : (Obj.buffer [120, 104, 105] 1).asVal = .bytes [104, 105] := rfl
+
 end Risor.C19
